@@ -27,12 +27,35 @@ MUTANTS = [
         pickle.dump((unevaluated_expr, unfolded_expr), f)
 '''),
     ("c16_drop_key_comparison", "C16", SYM,
-     "    if not isinstance(unfolded_expr, sp.Basic) or cached_expr != unevaluated_expr:\n",
-     "    if not isinstance(unfolded_expr, sp.Basic):\n"),
+     """        is_entry_for_expr = isinstance(unfolded_expr, sp.Basic) and bool(
+            cached_expr == unevaluated_expr
+        )
+""",
+     "        is_entry_for_expr = isinstance(unfolded_expr, sp.Basic)\n"),
     ("c16_compare_by_str", "C16", SYM,
-     "cached_expr != unevaluated_expr:", "str(cached_expr) != str(unevaluated_expr):"),
+     "            cached_expr == unevaluated_expr\n", "            str(cached_expr) == str(unevaluated_expr)\n"),
     ("c16_compare_by_hash", "C16", SYM,
-     "cached_expr != unevaluated_expr:", "hash(cached_expr) != hash(unevaluated_expr):"),
+     "            cached_expr == unevaluated_expr\n", "            hash(cached_expr) == hash(unevaluated_expr)\n"),
+    ("c16_revert_comparison_inside_try", "C16", SYM,
+     """        is_entry_for_expr = isinstance(unfolded_expr, sp.Basic) and bool(
+            cached_expr == unevaluated_expr
+        )
+    except FileNotFoundError:
+        return None
+    except Exception:  # noqa: BLE001
+        _LOGGER.warning(f"Could not read cached expression file {filename}")
+        return None
+    if not is_entry_for_expr:
+        return None
+""",
+     """    except FileNotFoundError:
+        return None
+    except Exception:  # noqa: BLE001
+        _LOGGER.warning(f"Could not read cached expression file {filename}")
+        return None
+    if not isinstance(unfolded_expr, sp.Basic) or cached_expr != unevaluated_expr:
+        return None
+"""),
     ("c16_narrow_except", "C16", SYM,
      "    except Exception:  # noqa: BLE001\n        _LOGGER.warning(f\"Could not read cached",
      "    except pickle.UnpicklingError:\n        _LOGGER.warning(f\"Could not read cached"),
